@@ -38,12 +38,12 @@ CFG = {
         "three or more partitions": r"parts=\[[^\],]*,[^\],]*,",
     },
     "gaps": [
-        "the inner 32-bit iterators are abstract: every C12_*_partial theorem holds for every inner cursor K with an `InnerSpec K` (= the C03 cursor laws: rem/Inv, next = pop front, next_back = pop back, advance_to n = filter (n <= .), advance_back_to n = filter (. <= n), exact size_hint, cached len); the instantiation with the mirrored bitmap::Iter model and the C03 theorems (family iter32) happens at merge - until then the executable model runs the C03 specification (list cursor, InnerSpec.list) as the inner iterator",
+        "the inner 32-bit iterators are the mirrored bitmap::Iter / bitmap::IntoIter model (Inner.iter32, Iter.lean); InnerSpec.iter32 (Lemmas/TreemapIter32.lean) proves the C03 cursor laws for it from C03_init / C03_step, so C12_init, C12_step, C12_sizeHint, C12_history, C12_intoIter are unconditional for every treemap whose partitions are Bitmap.WF (TWF); the C12_*_partial forms (every inner cursor K with an InnerSpec K) are kept",
         "size_hint exactness is stated under 'remaining count <= usize::MAX' (saturating_add / the IntoIter `< usize::MAX` test)",
     ],
     "assumptions": [
         "treemap iterator correspondence bounds: 2-4 partitions from keys {0,1,3,4,u32::MAX}, <= ~12000 elements, scripts of 10-40 calls",
     ],
-    "level_text": "Theorems (Lean 4, kernel-checked) that the model of treemap::Iter (next, next_back, advance_to, advance_back_to, size_hint), treemap::IntoIter (next, next_back, size counter) and BitmapIter behaves as a cursor over the sorted remaining elements for every interleaving of calls, given inner 32-bit cursors that satisfy the C03 cursor specification; the model is tied to the Rust source by running both on generated call scripts in two build profiles.",
-    "level_note": "Trusted: Lean kernel; the hand-written model mirrors treemap/iter.rs (checked by correspondence on generated scripts only); btree_map::Range and iter::FlatMap are modelled by their documented behaviour; the inner 32-bit iterator is taken to satisfy the C03 specification (proved separately for the mirrored bitmap::Iter model).",
+    "level_text": "Theorems (Lean 4, kernel-checked, unconditional) that the model of treemap::Iter (next, next_back, advance_to, advance_back_to, size_hint), treemap::IntoIter (next, next_back, size counter) and BitmapIter over the mirrored 32-bit iterators behaves as a cursor over the sorted remaining elements for every interleaving of calls on every well-formed treemap (the inner 32-bit cursor laws are the C03 theorems); the model is tied to the Rust source by running both on generated call scripts in two build profiles.",
+    "level_note": "Trusted: Lean kernel; the hand-written model mirrors treemap/iter.rs and composes it with the mirrored bitmap::Iter / IntoIter model (checked by correspondence on generated scripts only); btree_map::Range and iter::FlatMap are modelled by their documented behaviour.",
 }
